@@ -29,6 +29,7 @@ const (
 	tNeed // arg: the lock that must be held here
 	tCase
 	tPanic
+	tCall // before resolution: arg = "<callee name>|<receiver expression>"; after: arg = a lock the callee takes itself
 )
 
 type ltok struct {
@@ -42,8 +43,13 @@ type lockWalker struct {
 	out      []ltok
 	accesses []access
 	fn       string
-	recv     string
+	recv     string          // name of the receiver variable ("" for a plain function)
+	pkgs     map[string]bool // names under which the file imports packages (x.F() with x a package is not a method call)
+	skipCall *ast.CallExpr   // the call of a go / defer statement: it does not run here
+	calls    []callLock      // after resolution: (callee, lock the callee takes, as named at the call site)
 }
+
+type callLock struct{ callee, lock string }
 
 func (w *lockWalker) emit(k int, arg string) { w.out = append(w.out, ltok{k, arg}) }
 
@@ -88,8 +94,17 @@ func (w *lockWalker) expr(e ast.Node) {
 						w.need(show(x.Fun), "peersdb")
 					}
 				}
+				// a call of a method / of another package's function: resolved against the traces later
+				if x != w.skipCall {
+					if id, ok := f.X.(*ast.Ident); !ok || !w.pkgs[id.Name] {
+						w.emit(tCall, f.Sel.Name+"|"+show(f.X))
+					}
+				}
 			}
 			if id, ok := x.Fun.(*ast.Ident); ok {
+				if x != w.skipCall && id.Name != "panic" && id.Name != "delete" {
+					w.emit(tCall, id.Name+"|")
+				}
 				if id.Name == "panic" {
 					for _, a := range x.Args {
 						w.expr(a)
@@ -211,9 +226,13 @@ func (w *lockWalker) stmt(st ast.Stmt) {
 			})
 			return
 		}
+		w.skipCall = s.Call // runs at the exit, not here
 		w.expr(s.Call)
+		w.skipCall = nil
 	case *ast.GoStmt:
+		w.skipCall = s.Call // runs in another goroutine
 		w.expr(s.Call)
+		w.skipCall = nil
 	default:
 		w.expr(st)
 	}
@@ -241,15 +260,92 @@ func (w *lockWalker) clauses(b *ast.BlockStmt) {
 }
 
 // lockTraceOf returns the trace of one function.
-func lockTraceOf(name string, fd *ast.FuncDecl) *lockWalker {
-	w := &lockWalker{fn: name}
+func lockTraceOf(name string, fd *ast.FuncDecl, pkgs map[string]bool) *lockWalker {
+	w := &lockWalker{fn: name, pkgs: pkgs}
+	if fd.Recv != nil && len(fd.Recv.List) == 1 && len(fd.Recv.List[0].Names) == 1 {
+		w.recv = fd.Recv.List[0].Names[0].Name
+	}
 	w.block(fd.Body)
 	return w
 }
 
+// ownLocks: the mutexes a function locks itself (not inside a closure, which may run elsewhere).
+func (w *lockWalker) ownLocks() (ls []string) {
+	depth := 0
+	seen := map[string]bool{}
+	for _, t := range w.out {
+		switch {
+		case t.k == tOpen && t.arg == "func":
+			depth++
+		case t.k == tClose && t.arg == "func":
+			depth--
+		case t.k == tLock && depth == 0 && !seen[t.arg]:
+			seen[t.arg] = true
+			ls = append(ls, t.arg)
+		}
+	}
+	return
+}
+
+// resolveCalls replaces every call token by one token per mutex the CALLEE locks itself (one level deep:
+// the callee's own trace), named the way the call site names it: a lock reached through the callee's
+// receiver r ("r.Mutex") becomes "<receiver expression of the call>.Mutex"; package-level mutexes keep
+// their name (an identifier declared at the top level of the files, or exported); mutexes reached through the callee's local variables cannot be related by name and are
+// dropped. Calls of functions outside the traces (other packages, builtins, closures) disappear.
+func resolveCalls(traces []*lockWalker, pkgs, globals map[string]bool) {
+	byName := map[string][]*lockWalker{}
+	for _, w := range traces {
+		n := w.fn
+		if i := strings.LastIndex(n, "."); i >= 0 {
+			if w.recv == "" {
+				continue // a method without a named receiver locks nothing through it
+			}
+			n = "." + n[i+1:]
+		}
+		byName[n] = append(byName[n], w)
+	}
+	own := map[*lockWalker][]string{}
+	for _, w := range traces {
+		own[w] = w.ownLocks()
+	}
+	for _, w := range traces {
+		var out []ltok
+		for _, t := range w.out {
+			if t.k != tCall {
+				out = append(out, t)
+				continue
+			}
+			i := strings.Index(t.arg, "|")
+			name, rx := t.arg[:i], t.arg[i+1:]
+			key := name
+			if rx != "" {
+				key = "." + name
+			}
+			for _, cal := range byName[key] {
+				for _, l := range own[cal] {
+					base := l
+					if j := strings.Index(l, "."); j >= 0 {
+						base = l[:j]
+					}
+					switch {
+					case cal.recv != "" && base == cal.recv && base != l:
+						l = rx + l[len(base):]
+					case pkgs[base] || (base == l && (globals[l] || (l[0] >= 'A' && l[0] <= 'Z'))):
+					default:
+						continue
+					}
+					out = append(out, ltok{tCall, l})
+					w.calls = append(w.calls, callLock{cal.fn, l})
+				}
+			}
+		}
+		w.out = out
+	}
+}
+
 func writeLockTraces(sb *strings.Builder, traces []*lockWalker) int {
 	n := 0
-	sb.WriteString("/-- lock traces: (function, tokens); token kinds 0 lock, 1 unlock, 2 deferred unlock, 3 open block,\n    4 close block, 5 return, 6 break/continue, 7 goto, 8 label, 9 shared access needing the named lock,\n    10 case, 11 panic -/\n")
+	sb.WriteString("/-- lock traces: (function, tokens); token kinds 0 lock, 1 unlock, 2 deferred unlock, 3 open block,\n    4 close block, 5 return, 6 break/continue, 7 goto, 8 label, 9 shared access needing the named lock,\n    10 case, 11 panic, 12 call of a function of these files that locks the named mutex itself -/\n")
 	sb.WriteString("def lockTraces : List (String × List (Nat × String)) := [\n")
 	for i, w := range traces {
 		fmt.Fprintf(sb, "  (%s, [", leanStr(w.fn))
@@ -278,6 +374,19 @@ func writeLockTraces(sb *strings.Builder, traces []*lockWalker) int {
 			first = false
 			fmt.Fprintf(sb, "  (%s, %s, %s)", leanStr(a.fn), leanStr(a.what), leanStr(a.lock))
 			n++
+		}
+	}
+	sb.WriteString("\n]\n\n")
+	sb.WriteString("/-- every call of a traced function that takes a lock itself: (caller, callee, lock as named at the call site) -/\n")
+	sb.WriteString("def callLocks : List (String × String × String) := [\n")
+	first = true
+	for _, w := range traces {
+		for _, c := range w.calls {
+			if !first {
+				sb.WriteString(",\n")
+			}
+			first = false
+			fmt.Fprintf(sb, "  (%s, %s, %s)", leanStr(w.fn), leanStr(c.callee), leanStr(c.lock))
 		}
 	}
 	sb.WriteString("\n]\n\n")
